@@ -354,14 +354,11 @@ func (c *Ctx) mustRead(fn *ssa.Function, fv *types.Var, memo map[string]int, dep
 	ei := core.ErrorResultIndex(fn.Signature)
 	ok := true
 	for _, r := range core.ReturnsOf(fn) {
-		if ei >= 0 && c.M.ProvablyNonNilError(core.RetVal(r, ei), r.Block()) {
+		if ei >= 0 && c.M.RetNonNil(r, ei) {
 			continue
 		}
 		st := inS[r.Block().Index]
-		for _, in := range r.Block().Instrs {
-			if in == ssa.Instruction(r) {
-				break
-			}
+		for _, in := range r.Before() {
 			if !st && gen(in) {
 				st = true
 			}
@@ -508,12 +505,12 @@ func (c *Ctx) ruleMember(rule string) {
 		ei := core.ErrorResultIndex(fn.Signature)
 		ok, n := true, 0
 		for _, r := range core.ReturnsOf(fn) {
-			if c.M.ProvablyNonNilError(core.RetVal(r, ei), r.Block()) {
+			if c.M.RetNonNil(r, ei) {
 				continue
 			}
 			n++
 			found := false
-			for _, cond := range core.CondsAt(r.Block()) {
+			for _, cond := range r.Conds() {
 				// the same test written as a lookup: `_, found := values[data]` found true
 				if ex, isEx := cond.V.(*ssa.Extract); isEx && ex.Index == 1 && cond.True {
 					if lk, isLk := ex.Tuple.(*ssa.Lookup); isLk && lk.CommaOk && strings.HasSuffix(c.M.ValPath(lk.X), ".ValidValuesMap") &&
